@@ -3,6 +3,7 @@ slots, placements of non-pass scripts and layer faults, and the ground truth
 (expected result events) computed from the spec and the *trace* only."""
 import collections
 import itertools
+import os
 
 from vt import monitors
 from vt import worlds
@@ -49,6 +50,14 @@ def build(shape, scripts, lfaults=None, kind='c', extra=None):
 def script_events(t, modname='vtw.tests'):
     """[(kind 'F'|'E'|'S', name)] produced by ONE execution of test t."""
     s = t['s']
+    if t.get('dt'):
+        # str() of a doctest case
+        if t['dt'] == 'file':
+            base = os.path.basename(t.get('dfile') or '/vtw/%s.txt' % t['n'])
+        else:
+            dn = t.get('dname') or '%s.d_%s' % (modname, t['n'])
+            base = '%s (%s)' % (dn.split('.')[-1], '.'.join(dn.split('.')[:-1]))
+        return [('F', base)] if s == 'fail' else []
     base = 'test_%s (%s.T_%s.test_%s)' % (t['n'], modname, t['n'], t['n'])
     if s in ('pass', 'xfail'):
         return []
